@@ -40,10 +40,15 @@ def run_sp(case):
                 classes.add("more urgent arrival during a transmission")
     if multi_level_starts >= 2:
         classes.add(">=2 levels backlogged at >=2 service starts")
+    if any(w[2] == 0 for w in case["wl"]):
+        classes.add("zero-length packet")
     fl = {f for f, _ in case["table"]}
     if case.get("f2c") and any(c in fl and c != f for f, c in case["f2c"]):
         classes.add("flow2class maps onto other flows' ids")
     return {"nontrivial": multi_level_starts >= 2, "classes": sorted(classes)}
+
+
+SIZES0 = st.sampled_from([64, 128, 256, 512, 1024, 1536, 2048, 3072, 0, 64, 128])      # zero-length packets are legal
 
 
 def sp_f2c(flows, mode):
@@ -65,7 +70,7 @@ def strategy(tier):
         flows = st.permutations(list(range(6))).map(lambda p: list(p)[:n])
         return st.tuples(flows, st.lists(st.integers(1, 4), min_size=n, max_size=n), st.integers(0, 3)).flatmap(
             lambda t: st.tuples(schedlab.nice_rate(),
-                                kgen.weighted([(schedlab.sched_workload(t[0], 45 if big else 28, exact=True), 3),
+                                kgen.weighted([(schedlab.sched_workload(t[0], 45 if big else 28, exact=True, sizes=SIZES0), 3),
                                                (schedlab.sched_workload(t[0], 30, static=True), 1)])).map(
                 lambda rw: {"kind": "SP", "exact": True, "rate": rw[0], "table": [[f, v] for f, v in zip(t[0], t[1])],
                             "f2c": sp_f2c(t[0], t[2]), "wl": rw[1]}))
